@@ -11,6 +11,14 @@ From EDP Require Import Base.Bytes Term.Term Gen.Tags Gen.ControlTable Gen.Decod
 Theorem C06_tick : forall cfg st, handle_frame cfg st [] = (st, OContinue).
 Proof. exact handle_tick. Qed.
 
+(* polling an idle connection — a receive that finds nothing to read and times out — returns no message and leaves the
+   receive state (atom cache, fragments held) and the stream as they were: what the peer sends afterwards is read as if
+   the poll had not happened *)
+Theorem C06_idle_poll_changes_nothing : forall fuel cfg st, receive fuel cfg st [] = (REof, st, []).
+Proof. exact idle_poll. Qed.
+Theorem C06_idle_poll_read_half : forall fuel cfg, receive_half fuel cfg [] = (REof, []).
+Proof. exact idle_poll_half. Qed.
+
 (* over a transport that delivers the peer's frames with any segmentation, the successive calls of receive_message
    return the outcomes of the frames in order, each exactly once, and after them only end-of-stream: nothing is
    lost, duplicated or reordered, whatever the frames are (messages, ticks, fragments, junk) *)
@@ -54,6 +62,20 @@ Example C06_example :
   let m := [112; 131; 104; 3; 97; 2; 119; 0; 88; 119; 1; 110; 0; 0; 0; 1; 0; 0; 0; 2; 0; 0; 0; 3; 131; 107; 0; 1; 1] in
   exists d, fst (outcomes cfg rstate_init [m; []; [112; 131; 255]; m]) = [d; RFail; d] /\ d <> RFail.
 Proof. cbv zeta. eexists. split; [vm_compute; reflexivity|discriminate]. Qed.
+
+(* the recorded finding C06-timeout-mid-frame on the model: the frame {2, '', pid} ++ payload arrives in two parts with a
+   receive timing out between them (a receive call sees only the chunks that have arrived); the first call returns no
+   message and has consumed the two bytes it had read, so the second call, given the rest of the frame, does not deliver
+   the message — while the same bytes in one piece do *)
+Theorem C06_refuted_delay_inside_a_frame :
+  let cfg := {| d_arms := owned_arms; d_cache := []; d_refs := []; d_inflate := fun _ => None; d_float_text := fun _ => None;
+                d_kcmp := cmp_owned; d_kinsert := map_insert; d_extra_fuel := 0 |} in
+  let m := [112; 131; 104; 3; 97; 2; 119; 0; 88; 119; 1; 110; 0; 0; 0; 1; 0; 0; 0; 2; 0; 0; 0; 3; 131; 107; 0; 1; 1] in
+  let f := [0; 0; 0; 29] ++ m in
+  (exists c pl, receive 5 cfg rstate_init [Data f] = (RMsg c pl, rstate_init, [])) /\
+  receive 5 cfg rstate_init [Data (firstn 2 f)] = (REof, rstate_init, []) /\
+  fst (fst (receive 5 cfg rstate_init [Data (skipn 2 f)])) = REof.
+Proof. cbv zeta. split; [eexists; eexists; vm_compute; reflexivity|]. split; vm_compute; reflexivity. Qed.
 
 (* with distribution headers negotiated: a message of a conforming sender with an atom cache (C14: new entries,
    references to entries of earlier messages, overwrites, any segment) is delivered as the control tuple and payload
